@@ -1,5 +1,7 @@
 from __future__ import annotations
 
+import re
+
 import sympy
 from .. import templates
 from .python import PythonCodeGenerator, GotranPythonCodePrinter
@@ -17,6 +19,12 @@ class JaxPrinter(GotranPythonCodePrinter):
 
 
 class JaxCodeGenerator(PythonCodeGenerator):
+    reserved_names = PythonCodeGenerator.reserved_names | {"jax"}
+
+    def _is_reserved(self, name: str) -> bool:
+        # The values are collected in variables called _values_0, _values_1, ...
+        return super()._is_reserved(name) or re.fullmatch(r"_values_\d+", name) is not None
+
     def __init__(self, *args, **kwargs) -> None:
         super().__init__(*args, **kwargs)
 
